@@ -343,7 +343,7 @@ def run(ctx):
 
     # DIRK steps
     shipped = {n: np.asarray(T.closure(T.closure(getattr(solvers, n))['stepper'])['A'], dtype=float) for n in T.DIRK}
-    ndirk = 700 if quick else 8000
+    ndirk = 450 if quick else 8000
     for it in range(ndirk):
         if it % 3 != 2:
             name = T.DIRK[int(rng.integers(0, len(T.DIRK)))]
@@ -378,7 +378,7 @@ def run(ctx):
 
     # Rosenbrock steps
     shipped_ros = {n: T.closure(T.closure(getattr(solvers, n))['stepper']) for n in T.ROS}
-    nros = 500 if quick else 6000
+    nros = 350 if quick else 6000
     for it in range(nros):
         if it % 3 != 2:
             name = T.ROS[int(rng.integers(0, len(T.ROS)))]
@@ -409,7 +409,7 @@ def run(ctx):
         ctx.count('ros:' + name)
 
     # Newton
-    nnewt = 400 if quick else 5000
+    nnewt = 300 if quick else 5000
     for it in range(nnewt):
         n = int(rng.integers(1, 4))
         Q = rng.integers(-2, 3, size=(n, n)).astype(float) + float(rng.integers(3, 7)) * np.eye(n)
@@ -417,7 +417,7 @@ def run(ctx):
         c = rng.integers(-4, 5, size=n).astype(float)
         x0 = rng.integers(-2, 3, size=n).astype(float)
         atol = float(rng.choice([1e-3, 1e-6, 1e-9])); rtol = float(rng.choice([1e-6, 1e-3, 1e-9]))
-        maxiter = int(rng.choice([0, 1, 2, 3, 8, 8, 8])); freeze = int(rng.choice([1, 1, 2, 3]))
+        maxiter = int(rng.choice([0, 1, 2, 3, 6, 6, 6])); freeze = int(rng.choice([1, 1, 2, 3]))
         calls = []
         def F(x_, Q=Q, dq=dq, c=c, calls=calls):
             calls.append(np.array(x_)); return Q @ x_ + dq * x_ * x_ - c
@@ -710,9 +710,12 @@ def compare(ctx, solvers, r, g, m, tabs):
                 {'t0': t0, 'tau': tau, 't_end': tend, 'script(a,d,e,Fx) None=NoConvergence': script, 'implementation': want}, v is not None)
     if op == 'adapt':
         _, q, tol, sf, tau0, tend, t0, x0, script, tag, out, rec = m
+        parts = g.split(' | ')
+        if tag == 'err-RuntimeError' and 'does not terminate' in str(out) and len(parts) > 3 and parts[3].strip() == '1':
+            # e.g. step_factor = 1: r -> 1 from above, the controller never accepts; both sides agree that the loop goes on
+            ctx.count('adapt: skipped (script never terminates; model out of fuel too)'); return None
         if tag != 'ok':
             return ('ode-corr:adapt', 'adaptive driver raised %s (%s)' % (tag, out), {'script': script}, False)
-        parts = g.split(' | ')
         if parts[3].strip() == '1':
             ctx.count('adapt: skipped (model out of fuel)'); return None
         want_t = plist(out[0], lambda v: str(bits(v))); want_x = plist(out[1], lambda v: str(bits(np.ravel(v)[0])))
